@@ -66,7 +66,7 @@ def run(pid, tier, seed, replay):
         "states": max(1, t["distinct"]), "transitions": max(1, t["generated"]), "traces_validated_against_impl": t["lines"],
         "samples": [{"unknown": c["unknown"], "renderings": [r["repr"] for r in c["reps"]], "reference_behaviour": c["reps"][0]["behaviours"][:1]}],
         "evaluations": stats.get("renderings", 0), "distinct_nontrivial": stats.get("specs", 0),
-        "rule": "seeded abstract specs (3 nodes, patterns of every JSON shape incl. bare strings and bare variables, guards, actions, error settings), each in up to 17 renderings (Go structures, JSON, YAML, JSON-text patterns, compiled twice / forced / retried, serialised and reloaded, sio's loader inline / file JSON / file YAML, cmd/mcrew's GetSpec, the cmd/msimple binary); "
+        "rule": "seeded abstract specs (3 nodes, patterns of every JSON shape incl. bare strings and bare variables, guards, actions, error settings), each in up to 19 renderings (Go structures, JSON, YAML, JSON-text patterns, compiled twice / forced / retried, serialised and reloaded, sio's loader inline / file JSON / file YAML, cmd/mcrew's GetSpec, the cmd/msimple binary); "
                 "1 in 4 carries an unknown interpreter / branching type / pattern syntax; non-trivial = abstract specs compared",
         "judge_stats": stats, "exhaustive": False, "known_findings_hit": {k: v["count"] for k, v in rep.known.items()},
     }, ASSUME, time.time() - t0, len(rep.violations))
